@@ -255,6 +255,12 @@ pub struct Ctx {
     pub inner_seq: AtomicBool,
     pub torn: AtomicU64,
     pub token: AtomicU64,
+    /// how often the injected panic of a uid has fired
+    pub fired: Vec<AtomicU32>,
+    /// systems currently inside run / systems that have completed run (all uids)
+    pub active: AtomicU32,
+    pub finished: AtomicU64,
+    pub panic_fired: AtomicU32,
 }
 
 impl Ctx {
@@ -281,6 +287,10 @@ impl Ctx {
             inner_seq: AtomicBool::new(false),
             torn: AtomicU64::new(0),
             token: AtomicU64::new(1),
+            fired: v32(n_uids),
+            active: AtomicU32::new(0),
+            finished: AtomicU64::new(0),
+            panic_fired: AtomicU32::new(0),
         })
     }
 
